@@ -440,6 +440,36 @@ func recvGrammar(e *Env) {
 			return
 		}
 	}
+	// the link is cut in the middle of one more message: what has arrived of it
+	// is not a message and must reach no handler
+	if g.Pct(35) {
+		m := msgs[g.Intn(len(msgs))]
+		cut := g.Range(1, len(m.wire))
+		e.S.Count("fault.link-cut-mid-message")
+		disc := false
+		s.c.HandleFunc(client.DISCONNECTED, func(*client.Conn, *client.Line) { disc = true })
+		simrt.Sleep(time.Duration(g.Intn(3)) * time.Millisecond)
+		s.l.Send(m.wire[:cut])
+		if g.Bool() {
+			simrt.Sleep(time.Duration(1+g.Intn(3)) * time.Millisecond)
+		}
+		s.l.CloseByServer()
+		if !simrt.BlockFor("recv", "DISCONNECTED after the server hung up", 10*time.Minute, func() bool { return disc }) {
+			e.Violation("stopped-processing", "the server hung up mid-message and the client did not disconnect\n%s", e.S.TaskDump())
+			return
+		}
+		simrt.Settle(time.Second)
+		e.Check()
+		if len(seen) != len(msgs) || len(seenBG) != len(msgs) {
+			extra := seen[len(msgs):]
+			what := "?"
+			if len(extra) > 0 {
+				what = fmt.Sprintf("Cmd=%q Args=%s Raw=%q", extra[0].Cmd, clipq(extra[0].Args), clip(extra[0].Raw))
+			}
+			e.Violation("delivered", "the link was cut after the first %d bytes of a message (%q): %d foreground and %d background deliveries for %d messages sent; a handler received %s, which the server never sent as a message", cut, clip(m.wire[:cut]), len(seen), len(seenBG), len(msgs), what)
+			return
+		}
+	}
 	// the background handlers: the same multiset of lines
 	key := func(l *client.Line) string {
 		return fmt.Sprintf("%q|%q|%q|%q|%q|%q|%q|%v", l.Raw, l.Cmd, l.Args, l.Nick, l.Ident, l.Host, l.Src, sortedTagList(l.Tags))
